@@ -503,7 +503,7 @@ def _asset_weight_paths(ctx):
 
     def short(c):
         c = c.replace("find_with_tag(p4,p3.emode.emode_tag)", "EM").replace("get_weight(p3.config,p2,BalanceSide::Assets{})", "BW")
-        return re.sub(r"maybe_get_asset_weight_init_discount\(p3,get_price_of_type\(try_get_price_feed\(p1\)\.0,get_oracle_price_type\(p2\),Option::Some\{PriceBias::Low\{\}\},p3\.config\.oracle_max_confidence\)\)", "DISC", c)
+        return re.sub(r"maybe_get_asset_weight_init_discount\(p3,get_price_of_type\(try_get_price_feed\(p1\)\.0,get_oracle_price_type\(p2\),(?:Option::Some\{)?PriceBias::Low\{\}\}?,p3\.config\.oracle_max_confidence\)\)", "DISC", c)
     table = set()
     for cs, r, st in effect_paths(prog, f, limit=4000, probes={"w": (cv.block, cv.args[3])}):
         if "?w" not in st:
